@@ -300,7 +300,17 @@ func (w *world) rho() int {
 
 func (w *world) limit() int { return w.p.d + w.p.maxSusp }
 
+// lower is the smallest unsuspended running time at which the timeout may
+// fire: more than timeout - threshold; with threshold 0 firing at exactly the
+// timeout conforms as well.
+func (w *world) lower() int {
+	if w.p.threshold == 0 {
+		return w.p.d
+	}
+	return w.p.d - w.p.threshold + 1
+}
+
 // inWindow: may the timeout fire at the current instant?
 func (w *world) inWindow() bool {
-	return (w.p.d-w.p.threshold < w.u && w.u <= w.p.d+w.rho()) || w.wall == w.limit()
+	return (w.lower() <= w.u && w.u <= w.p.d+w.rho()) || w.wall == w.limit()
 }
